@@ -11,7 +11,19 @@ def H(name, engine="x", pkg="passage-packets", tier="quick", timeout_s=600, mem_
 
 PROPS = {}
 
+# properties not (or not yet) claimed, with the reason that goes into MANIFEST.not_applicable
+NOT_APPLICABLE = {
+    "C08": "the property is the difference between an await that completes atomically and one cancelled half-way; the real coroutines are beyond CBMC (field-sensitivity stall, DESIGN §1.6) and the erased encoding assumes that difference away - no sound solver encoding within reach",
+    "C16": "a statement about several tasks progressing concurrently; Kani executes one thread and tokio's scheduler cannot be compiled under it (TLS ICE, DESIGN §1.4)",
+    "C17": "a shutdown signal racing in-flight tasks: scheduler/TaskTracker/CancellationToken semantics, no single-task encoding decides it",
+    "C20": "the cache update is an anonymous closure inside AgonesDiscoveryAdapter::new fed by a kube watcher stream from a live client; no callable unit to encode, and deletions are dropped inside kube-runtime's applied_objects()",
+}
+for _p in ["C01", "C02", "C03", "C04", "C05", "C06", "C07", "C10", "C11", "C12", "C13", "C14", "C15", "C18", "C19"]:
+    NOT_APPLICABLE[_p] = "check not built yet in this round (planned, see DESIGN.md §4)"
+
 PROPS["C09"] = {
+    "level_text": "Bounded model checking of the real encoder/decoder (erased copy regenerated from /repo): every packet type is encoded by the real writer, compared byte-for-byte with an independent reference encoder and id table, decoded by the real reader and compared; VarInt/VarLong for all 2^32 / 2^64 values. Strings up to 5 bytes, arrays up to 32.",
+    "level_note": "Trusted: Kani/CBMC, rustc; the erasure rules R1-R9 and the synchronous tokio I/O model (env/shims/tokio-sync); the UTF-8 validation model stubbed for core::str::from_utf8 (itself proven equal to std for inputs up to 4 bytes); tracing macros empty. Outside the bound: longer strings, NBT compound text components.",
     "assumptions": [
         "engine X: the crate is the regenerated erased copy (rules R1-R8); tokio's AsyncReadExt/AsyncWriteExt adapters are the synchronous model env/shims/tokio-sync",
         "tracing macros and #[instrument] are empty (env/shims/tracing)",
